@@ -235,30 +235,38 @@ Section Model.
      Faithful to two quirks of the code: the optimum idler is computed with the OLD poling (self.pp), and the idler
      waist position is computed from the OLD idler (self.idler: wavelength and polarization). *)
   Definition ninety_deg : num := nZ o 90 *' u_deg o.
+  Definition opt_signal (s : spdc num) : beam num :=
+    if cs_counter (s_crystal s) then
+      if nltb o (b_theta (s_signal s)) ninety_deg then set_angles (s_signal s) (n0 o *' u_deg o) (n0 o *' u_deg o)
+      else set_angles (s_signal s) (n0 o *' u_deg o) (nZ o 180 *' u_deg o)
+    else set_angles (s_signal s) (n0 o *' u_deg o) (n0 o *' u_deg o).
+  (* crystal angle (poling off) or poling period (poling on, apodization kept) *)
+  Definition opt_crystal_poling (s : spdc num) (signal : beam num)
+    : outcome (crystal_setup num * poling num * list nonfinite) :=
+    match s_pp s with
+    | PolOff => bind (optimum_theta (s_crystal s) signal (s_pump s)) (fun th =>
+                  Ok (set_crystal_theta (s_crystal s) th, PolOff, []))
+    | PolOn _ _ a =>
+        bind (optimum_poling_period signal (s_pump s) (s_crystal s)) (fun r =>
+          match r with
+          | inl per => Ok (s_crystal s, poling_new per a, [])
+          | inr _ => Ok (s_crystal s, PolOn (n0 o) Pos a, [NFPeriodInfinite])
+          end)
+    end.
+  Definition finish_optimum (s : spdc num) (signal : beam num) (cs : crystal_setup num) (pp : poling num)
+      (nf_pp : list nonfinite) (idler0 : beam num) (nf_i : list nonfinite) : spdc num * list nonfinite :=
+    let idler := set_waist idler0 (b_waist (s_idler s)) in       (* "keep the same idler waist size" *)
+    let zs := waist_position cs signal NFWaistSignal in
+    let zi := waist_position cs (s_idler s) NFWaistIdler in      (* self.idler: the OLD idler *)
+    ({| s_crystal := cs; s_signal := signal; s_idler := idler; s_pump := s_pump s; s_bandwidth := s_bandwidth s;
+        s_power := s_power s; s_threshold := s_threshold s; s_pp := pp; s_zs := fst zs; s_zi := fst zi;
+        s_deff := s_deff s |},
+     nf_pp ++ nf_i ++ snd zs ++ snd zi).
   Definition try_as_optimum (s : spdc num) : outcome (spdc num * list nonfinite) :=
-    let signal :=
-      if cs_counter (s_crystal s) then
-        if nltb o (b_theta (s_signal s)) ninety_deg then set_angles (s_signal s) (n0 o *' u_deg o) (n0 o *' u_deg o)
-        else set_angles (s_signal s) (n0 o *' u_deg o) (nZ o 180 *' u_deg o)
-      else set_angles (s_signal s) (n0 o *' u_deg o) (n0 o *' u_deg o) in
-    bind (match s_pp s with
-          | PolOff => bind (optimum_theta (s_crystal s) signal (s_pump s)) (fun th =>
-                        Ok (set_crystal_theta (s_crystal s) th, PolOff, []))
-          | PolOn _ _ a =>
-              bind (optimum_poling_period signal (s_pump s) (s_crystal s)) (fun r =>
-                match r with
-                | inl per => Ok (s_crystal s, poling_new per a, [])
-                | inr _ => Ok (s_crystal s, PolOn (n0 o) Pos a, [NFPeriodInfinite])
-                end)
-          end) (fun '(cs, pp, nf_pp) =>
-    bind (idler_optimum signal (s_pump s) cs (s_pp s)) (fun '(idler0, nf_i) =>
-    let idler := set_waist idler0 (b_waist (s_idler s)) in
-    let '(zs, nf_zs) := waist_position cs signal NFWaistSignal in
-    let '(zi, nf_zi) := waist_position cs (s_idler s) NFWaistIdler in
-    Ok ({| s_crystal := cs; s_signal := signal; s_idler := idler; s_pump := s_pump s; s_bandwidth := s_bandwidth s;
-           s_power := s_power s; s_threshold := s_threshold s; s_pp := pp; s_zs := zs; s_zi := zi;
-           s_deff := s_deff s |},
-        nf_pp ++ nf_i ++ nf_zs ++ nf_zi))).
+    let signal := opt_signal s in
+    bind (opt_crystal_poling s signal) (fun r =>
+    bind (idler_optimum signal (s_pump s) (fst (fst r)) (s_pp s)) (fun idn =>      (* self.pp: the OLD poling *)
+    Ok (finish_optimum s signal (fst (fst r)) (snd (fst r)) (snd r) (fst idn) (snd idn)))).
 
   (* ---- level-2 trace of try_as_spdc (used by the correspondence check): which fallible helper was called, in
      order, and how it ended *)
